@@ -66,7 +66,7 @@ func init() {
 							hits := after.FindId(id)
 							var real []string
 							for _, h := range hits {
-								if cfg.BossCascade == boltz.CascadeCreateUpdate && t == kmodel.Emps && strings.Contains(h, `/"boss"`) {
+								if cfg.BossCascade == boltz.CascadeCreateUpdate && t == kmodel.Emps && strings.Contains(h, `/"bs"`) {
 									continue // declared: create/update-only fk does not police deletes
 								}
 								real = append(real, h)
